@@ -25,14 +25,18 @@ def _generic(k, scale=1.0):
     return out
 
 
-GENERIC_QUAT = [0.5744562646538029, 0.3446737587922817, -0.6893475175845634, 0.2757390070338254]
+_GQ = [0.5744562646538029, 0.3446737587922817, -0.6893475175845634, 0.2757390070338254]
+_GQN = math.sqrt(sum(c * c for c in _GQ))
+GENERIC_QUAT = [c / _GQN for c in _GQ]
 
 
 def quat_mul(a, b):
-    return [a[0] * b[0] - a[1] * b[1] - a[2] * b[2] - a[3] * b[3],
-            a[0] * b[1] + a[1] * b[0] + a[2] * b[3] - a[3] * b[2],
-            a[0] * b[2] - a[1] * b[3] + a[2] * b[0] + a[3] * b[1],
-            a[0] * b[3] + a[1] * b[2] - a[2] * b[1] + a[3] * b[0]]
+    q = [a[0] * b[0] - a[1] * b[1] - a[2] * b[2] - a[3] * b[3],
+         a[0] * b[1] + a[1] * b[0] + a[2] * b[3] - a[3] * b[2],
+         a[0] * b[2] - a[1] * b[3] + a[2] * b[0] + a[3] * b[1],
+         a[0] * b[3] + a[1] * b[2] - a[2] * b[1] + a[3] * b[0]]
+    n = math.sqrt(sum(c * c for c in q))
+    return [c / n for c in q]
 
 
 @st.composite
@@ -277,6 +281,17 @@ def comp_cartesian(draw, sysd):
 
 @st.composite
 def comp_angle(draw, sysd, which="angle", fit=False):
+    if which == "dipoleAngle":
+        g1 = draw(group(sysd, 2, 3))
+        rest = []
+        used = list(g1["atoms"])
+        for i in range(2):
+            gi = draw(group(sysd, 1, 1 if sysd["natoms"] - len(used) <= (1 - i) + 1 else 2, exclude=tuple(used)))
+            used.extend(gi["atoms"])
+            rest.append(gi)
+        g = [g1] + rest
+        return {"type": which, "groups": [("group1", g[0]), ("group2", g[1]), ("group3", g[2])], "kv": {},
+                "vtype": SCALAR}
     g = draw(disjoint_groups(sysd, 3, kmax=2, allow_fit=fit))
     return {"type": which, "groups": [("group1", g[0]), ("group2", g[1]), ("group3", g[2])], "kv": {},
             "vtype": SCALAR}
@@ -443,7 +458,7 @@ NONSCALAR_COMPONENTS = {
     "orientation": lambda s: comp_orientation(s, "orientation"),
 }
 
-MIN_ATOMS = {"dihedral": 4, "angle": 3, "angle_fit": 4, "dipoleAngle": 3, "distanceZ": 3, "distanceZ_fit": 4,
+MIN_ATOMS = {"dihedral": 4, "angle": 3, "angle_fit": 4, "dipoleAngle": 5, "distanceZ": 3, "distanceZ_fit": 4,
              "distanceXY": 3, "rmsd": 4, "eigenvector": 4, "orientation": 4, "orientationAngle": 4,
              "orientationProj": 4, "tilt": 4, "spinAngle": 4, "eulerPhi": 4, "eulerTheta": 4, "eulerPsi": 4,
              "distance_fit": 4}
